@@ -135,7 +135,7 @@ pub fn behaviour() -> Behaviour {
     Behaviour {
         prop: "C10",
         rule: "structs and enums with 1..4 Into targets from {u8,u16,u32,u64,i64,String,&'static str,Wrap}, field markers with and without methods, sole-field \
-               and unique-same-type selection, two same-typed candidates with one marked; for every target, variant and value x.into() is compared with the \
+               and unique-same-type selection, two same-typed candidates with one marked, targets that borrow for a lifetime of the type (`Into(&'a u16)`); for every target, variant and value x.into() is compared with the \
                model's designated field passed through its method, returned unchanged, or converted with From; Into<U> must not exist for the non-requested \
                U of the panel (trait-resolution probe); non-trivial = >=2 targets or >=2 candidate fields for one target",
         salt: 0xC10,
